@@ -218,8 +218,19 @@ func c10Group(c *fw.Ctx, inputs []*ref.Node, group string, only string) {
 	case "pair":
 		bvs := c10Boundary(len(valid))
 		pick := []int{0, 3, 7, 8, 12, 13, 15, 17}
+		// large encodings (fixed arrays of 12): pairs among the first 24 and the last 6 words only
+		skip := func(w int) bool { return len(valid) > 40*32 && w >= 24*32 && w < len(valid)-6*32 }
 		for w1 := 0; w1+32 <= len(valid); w1 += 32 {
+			if skip(w1) {
+				continue
+			}
+			if c.Expired() {
+				return
+			}
 			for w2 := w1 + 32; w2+32 <= len(valid); w2 += 32 {
+				if skip(w2) {
+					continue
+				}
 				for _, i := range pick {
 					for _, j := range pick {
 						d := append([]byte(nil), valid...)
